@@ -138,7 +138,7 @@ class Dataset:
         self.sources = {}       # name -> dict(path, kind, views, exc)
         self.good = []
         uid = idx * 1000
-        exts = ["records", "records.gz", "jsonl"] + [rnd.choice(["records", "records.bz2", "records.gz", "jsonl"])]
+        exts = ["records", "records.gz", "jsonl"] + [rnd.choice(["records.lz4", "records.bz2", "records.zst", "jsonl", "records"])]
         ngood = rnd.randint(2, 4)
         for g in range(ngood):
             ext = exts[g]
@@ -1057,7 +1057,7 @@ def plan(ctx, ds, rnd):
     for skip in (0, 2):
         cases.append((good, dict(out="w:records", expr=ABORT_EXPR, abort=True, skip=skip)))
         cases.append((good[::-1], dict(out="w:records", expr=ABORT_EXPR, abort=True, skip=skip)))
-    for _ in range(20 if quick else 150):
+    for _ in range(40 if quick else 200):
         srcs = list(good)
         if rnd.random() < 0.6:
             srcs.insert(rnd.randrange(len(srcs) + 1), rnd.choice(ds.faults))
@@ -1111,7 +1111,7 @@ def nontrivial(ds, srcs, opt):
 def sweep(ctx, coq=True, first_only=True):
     """Run the whole correspondence on the implementation.  Returns (coq_cases, metas, problems, st)."""
     rnd = random.Random(ctx.seed)
-    nds = 3 if ctx.tier == "quick" else 10
+    nds = 5 if ctx.tier == "quick" else 16
     coq_cases, metas, problems = ([] if coq else None), [], []
     st = {}
     outdir = os.path.join(str(ctx.work), "out")
